@@ -367,7 +367,6 @@ class NestedAdapter:
     part = "nested"
     module = "Nested_mc"
     actions = ("Descend", "MoveAny", "Ascend", "BadIndex")
-    ORIGIN = (5.0, -3.0, 10.0)  # cm; the spec's Origin is (500, -300, 1000) units
 
     def __init__(self):
         armi_ready()
@@ -379,8 +378,9 @@ class NestedAdapter:
         assert root["chain"] == []
         C = self.composites.Composite
         reactor, core = C("reactor"), C("core")
-        reactor.add(core)
-        core.spatialLocator = self.grids.CoordinateLocation(*self.ORIGIN, None)
+        if root["rooted"]:
+            reactor.add(core)
+        core.spatialLocator = self.grids.CoordinateLocation(*vec_cm(root["coreAt"]), None)
         return {"reactor": reactor, "objs": [core], "grids": [], "desc": [], "err": ""}
 
     def apply(self, w, a):
@@ -425,8 +425,10 @@ class NestedAdapter:
             f = "levels.%s" % ("%d" % l)
             obj, g = w["objs"][l], w["grids"][l - 1]
             loc = obj.spatialLocator
-            c.true(f + ".idx", loc.grid is g and g.armiObject is w["objs"][l - 1]
-                   and loc.parentLocation is w["objs"][l - 1].spatialLocator, "locator / grid / owner links are broken")
+            c.true(f + ".idx", loc.grid is g and g.armiObject is w["objs"][l - 1], "locator / grid / owner links are broken")
+            c.eq(f + ".parented", e["parented"], loc.parentLocation is not None)
+            c.true(f + ".parented", loc.parentLocation is None or loc.parentLocation is w["objs"][l - 1].spatialLocator,
+                   "parentLocation is not the locator of the grid's owner")
             c.eq(f + ".idx", e["idx"], ints((loc.i, loc.j, loc.k)))
             c.vec(f + ".local", vec_cm(e["local"]), scale, call(loc.getLocalCoordinates), call(g.getCoordinates, tuple(e["idx"])))
             c.vec(f + ".global", vec_cm(e["global"]), scale, call(loc.getGlobalCoordinates))
@@ -558,8 +560,8 @@ CFG = {  # part -> (exhaustive cfg, emission cfg) per tier
                  "nested": ("Nested_mc_thorough.cfg", "Nested_emit_thorough.cfg"),
                  "reduce": ("Reduce_mc.cfg", "Reduce_emit.cfg")},
 }
-MAX_EDGES = {"quick": {"hex": None, "cart": None, "nested": 6000, "reduce": None},
-             "thorough": {"hex": None, "cart": None, "nested": 40000, "reduce": None}}
+MAX_EDGES = {"quick": {"hex": None, "cart": None, "nested": 8000, "reduce": None},
+             "thorough": {"hex": None, "cart": None, "nested": None, "reduce": None}}
 
 
 # ------------------------------------------------------------------------------------------------------------
@@ -698,8 +700,12 @@ def run(rep, tier, seed):
         rep.sample({"part": part, "path": [s["act"] for s in graph.path[e["_fk"]]][-4:], "act": e["act"],
                     "expected_obs": _trim(e["obs"])})
     rep.exhaustive = True
-    rep.note("nested: edges sampled (%s of the emitted edges per run, seeded); every other part replays all edges"
-             % MAX_EDGES[tier]["nested"])
+    if MAX_EDGES[tier]["nested"] is None:
+        rep.note("every emitted edge of every part was replayed")
+    else:
+        rep.note("nested: a seeded sample of %d of the emitted edges is replayed in this tier (all root states and, through "
+                 "the BFS paths, all kinds of nesting are still visited); every other part replays all edges"
+                 % MAX_EDGES[tier]["nested"])
     rep.assume(
         "tolerance: |a-b| <= 1e-9*max(|a|,|b|) + 1e-9*(length scale of the case): a handful of double operations, sums that cancel",
         "hex lattice units: x,y = lattice integer * (pitch/2 or pitch/(2*sqrt(3))) + offset; GridGeom units: (a + b*sqrt(3)) * 0.01 cm",
@@ -953,6 +959,16 @@ def _mutants():
         return f
     mutant("StructuredGrid.getCellTop: returns the centre", ["hex", "cart"], SG, "getCellTop", m23)
 
+    # 24 parentLocation ignores whether the grid's owner is itself placed in something
+    def m24(orig):
+        def f(self):
+            grid = self.grid
+            if grid is not None and grid.armiObject is not None:
+                return grid.armiObject.spatialLocator
+            return None
+        return f
+    mutant("IndexLocation.parentLocation: 'owner has a parent' test dropped", ["nested"], IL, "parentLocation", m24, "property")
+
     # 20 global cell base uses the parent's centre
     def m20(orig):
         def f(self):
@@ -988,8 +1004,11 @@ def selftest():
     for name, mparts, obj, attr, make, static in _mutants():
         orig_attr = obj.__dict__[attr] if isinstance(obj, type) else getattr(obj, attr)
         orig = orig_attr.__func__ if isinstance(orig_attr, (staticmethod, classmethod)) else orig_attr
-        new = make(orig)
-        setattr(obj, attr, classmethod(new) if static == "class" else staticmethod(new) if static else new)
+        new = make(orig) if static != "property" else None
+        if static == "property":
+            new = property(make(orig_attr.fget))
+        setattr(obj, attr, classmethod(new) if static == "class" else new if static == "property" else
+                staticmethod(new) if static else new)
         try:
             found = []
             for part in mparts:
